@@ -101,6 +101,17 @@ Walk(d, ops, evs, k, w) ==
                                                                  ELSE "chained-combined-with-missing-part")
                                  ELSE IF obs = TextOfComb(d, w.comb) THEN "chained-complete-parts-not-joined"
                                  ELSE "chained-join-loses-duplicates-or-reorders-bytes"))
+  ELSE IF o = "Q" THEN
+    LET obs == ObservedText(e)
+        src == IF ch THEN w.comb ELSE w.stored
+        exp == IF src = <<>> \/ ~Decodable(d, src[1], src[2]) THEN NotFoundText ELSE SelectText(d, src[1], src[2], op[2], op[3])
+    (* a selection that does not exist must not produce a value: an error or an empty text are both accepted *)
+    (* (the property text does not say which; a single-field definition answers OK with an empty text)       *)
+    IN IF obs = exp \/ (exp = NotFoundText /\ obs = <<>>) THEN Walk(d, ops, evs, k + 1, w)
+       ELSE Walk(d, ops, evs, k + 1,
+                 [w EXCEPT !.out = @ \cup {<<"P", IF exp = NotFoundText THEN "field-selection-finds-nonexistent-field"
+                                                  ELSE IF obs = NotFoundText THEN "field-selection-not-found"
+                                                  ELSE "field-selection-returns-other-value">>}])
   ELSE w.out \cup {<<"M", "unknown-op">>}
 
 Findings(r) ==
